@@ -11,6 +11,7 @@ from .common import Report, finish
 
 PROPS = {
     "C01": "analysis.props.p_c01",
+    "C04": "analysis.props.p_c04",
     "C06": "analysis.props.p_c06",
     "C08": "analysis.props.p_c08",
     "C09": "analysis.props.p_c09",
